@@ -42,8 +42,16 @@ def co_coarsen(case, ctx):
     d = ctx.subdir()
     cols = case["cols"]
     scale = case.get("scale", 1)
+    in_dt = {c: case["in_dtype"] for c in cols} if case.get("in_dtype") else None     # narrow integer columns in the source
+    if case.get("prior_table"):
+        # the source path held ANOTHER cooler - other bin boundaries, other pixels - that was coarsened by this process
+        # before it was replaced by the cooler of the case
+        pt = case["prior_table"]
+        psrc = _mk(os.path.join(d, "src.cool"), pt, [[i, j, 1] for i in range(len(pt)) for j in range(i, len(pt))], "symm",
+                   at=case.get("src_at"))
+        cooler.coarsen_cooler(psrc, os.path.join(d, "prior_out.cool"), case["k"], chunksize=case["chunk"])
     if scale == 1:
-        src = _mk(os.path.join(d, "src.cool"), case["table"], case["px"], case["mode"], cols, at=case.get("src_at"))
+        src = _mk(os.path.join(d, "src.cool"), case["table"], case["px"], case["mode"], cols, dtypes=in_dt, at=case.get("src_at"))
     else:
         # float value columns holding exact multiples of 1/scale (dyadic, so every sum is exact)
         fr = gen.pixels_frame(case["px"], cols, {c: np.int64 for c in cols})
@@ -70,7 +78,8 @@ def co_coarsen(case, ctx):
             raise res.exception if isinstance(res.exception, Exception) else RuntimeError(res.output[-200:])
     else:
         cooler.coarsen_cooler(src, uri, case["k"], chunksize=case["chunk"], nproc=case["nproc"],
-                              columns=cols if cols != ["count"] else None, agg=agg)
+                              columns=cols if cols != ["count"] else None, agg=agg,
+                              **({"dtypes": {c: np.dtype(case["out_dtype"]) for c in cols}} if case.get("out_dtype") else {}))
     c = cooler.Cooler(uri)
     if scale == 1:
         obs = {"table": _table_of(c), "px": _px_of(c, cols), "sum": project.to_int(c.info.get("sum", 0)),
